@@ -477,6 +477,13 @@ def recasts(a, allow=('int', 'real', 'single')):
     import numpy as np
     a = np.asarray(a)
     out = []
+    if a.dtype.kind in 'iu' and a.size and 'int' in allow:
+        m = int(np.abs(a).max())
+        for tag, dt, lim in (('int8', np.int8, 2 ** 7), ('int16', np.int16, 2 ** 15), ('int32', np.int32, 2 ** 31),
+                             ('int64', np.int64, 2 ** 63)):
+            if m < lim and a.dtype != dt:
+                out.append((tag, a.astype(dt)))
+        return out          # unsigned types are not offered: index / score arithmetic on them is outside every property's domain
     if a.dtype.kind in 'fc' and a.size and np.all(np.isfinite(a)):
         re = a.real if a.dtype.kind == 'c' else a
         if a.dtype.kind == 'c' and 'real' in allow and not np.any(a.imag):
